@@ -247,3 +247,18 @@ def least_exists(P, key):
 
 def rank(A, x):
     return 0
+
+
+def g_mvn(g, mean, cov, n):
+    import numpy as np
+    return g.draw(lambda: np.random.multivariate_normal(np.asarray(mean, dtype=float), np.asarray(cov, dtype=float), size=n)), g
+
+
+def solve(A, b):
+    import numpy as np
+    return np.linalg.solve(np.asarray(A, dtype=float), np.asarray(b, dtype=float))
+
+
+def nd_of(mean, cov):
+    from sempler.normal_distribution import NormalDistribution
+    return NormalDistribution(mean, cov)
